@@ -3,11 +3,16 @@
 package control
 
 import (
+	"context"
 	"net"
 	"net/netip"
 	"strconv"
+	"time"
 
 	"github.com/daeuniverse/dae/common/consts"
+	ob "github.com/daeuniverse/dae/component/outbound"
+	"github.com/daeuniverse/dae/component/outbound/dialer"
+	"github.com/sirupsen/logrus"
 	vs "github.com/daeuniverse/dae/zz_vs"
 )
 
@@ -184,5 +189,48 @@ func Verif_C18_strings() {
 		} else {
 			vs.Assert("unverified name => original destination", target == "10.1.2.3:443" && dialIp)
 		}
+	}
+}
+
+// Verif_C18_rerouted: the dial target of a flow that is routed again in userspace (domain++ with a
+// sniffed name, or a flow the kernel handed over as <control plane routing>): whatever outbound the
+// flow came with and whatever outbound the second routing picks, the target that is dialled is the
+// one ChooseDialTarget prescribes for the outbound the flow finally uses - by name only for a
+// user-defined group, by address for direct.
+func Verif_C18_rerouted() {
+	e := &c18Env{hasKnowledge: vs.Bool("hasDnsKnowledge"), known: vs.Bool("realCache.known"), real: vs.Bool("realCache.real")}
+	c18Install(e)
+	first := []consts.OutboundIndex{consts.OutboundDirect, consts.OutboundControlPlaneRouting, consts.OutboundUserDefinedMin}[vs.Choice("kernelOutbound", 3)]
+	second := []consts.OutboundIndex{consts.OutboundDirect, consts.OutboundUserDefinedMin}[vs.Choice("reroutedTo", 2)]
+	routed := 0
+	vs.Replace("(*github.com/daeuniverse/dae/control.ControlPlane).Route",
+		func(c *ControlPlane, src, dst netip.AddrPort, domain string, l4proto consts.L4ProtoType, rr *bpfRoutingResult) (consts.OutboundIndex, uint32, bool, error) {
+			routed++
+			return second, 0, false, nil
+		})
+	someDialer := &dialer.Dialer{}
+	vs.Replace("(*github.com/daeuniverse/dae/component/outbound.DialerGroup).SelectWithExclusionResult",
+		func(g *ob.DialerGroup, nt *dialer.NetworkType, strict bool, excluded *dialer.Dialer) (*dialer.Dialer, time.Duration, *dialer.NetworkType, error) {
+			return someDialer, 0, nt, nil
+		})
+	cp := &ControlPlane{}
+	cp.log = logrus.New()
+	cp.dialMode = c18Modes[vs.Choice("mode", 4)]
+	cp.dnsController = &DnsController{}
+	cp.outbounds = []*ob.DialerGroup{{Name: "direct"}, {Name: "block"}, {Name: "g"}}
+	domain := []string{"", "www.example.com"}[vs.Choice("domain", 2)]
+	dst := netip.AddrPortFrom(netip.AddrFrom4([4]byte{10, 1, 2, 3}), 443)
+	p := &proxyDialParam{Outbound: first, Domain: domain, Src: netip.MustParseAddrPort("192.168.1.2:5555"), Dest: dst, Network: "tcp"}
+	res, err := cp.chooseProxyDialer(context.Background(), p)
+	vs.Assert("a dialer is chosen", err == nil && res != nil && res.Dialer == someDialer)
+	final := first
+	if routed > 0 {
+		final = second
+	}
+	vs.Assert("the group used is the one the flow is finally routed to", res.Outbound == cp.outbounds[final])
+	wantTarget, _, wantIp := cp.ChooseDialTarget(final, dst, domain)
+	vs.Assert("the dial target is the one prescribed for the final outbound", res.DialTarget == wantTarget && res.IsDialIp == wantIp)
+	if final == consts.OutboundDirect {
+		vs.Assert("direct traffic is dialled by its original address", res.DialTarget == "10.1.2.3:443" && res.IsDialIp)
 	}
 }
